@@ -523,6 +523,80 @@ def fam_exprstmt(arg):
 USE_KINDS = ('return', 'assign-then-return', 'jumpif', 'call-argument')
 
 
+def check_accessor(case, acc):
+    """An expression statement  f(<effectful call>)  for every library function f: never pointless."""
+    load_impl()
+    from bare_script.library import SCRIPT_FUNCTIONS  # pylint: disable=import-outside-toplevel,import-error
+    names = sorted(SCRIPT_FUNCTIONS)
+    fname = names[case['i']]
+    note = {'function': {'name': 'systemLog', 'args': [{'string': 'note'}]}}
+    inner = {'function': {'name': 'arrayNew', 'args': [note]}} if case['wrap'] else note
+    stmt = {'expr': {'expr': {'function': {'name': fname, 'args': [inner]}}}}
+    after = {'expr': {'expr': {'function': {'name': 'systemLog', 'args': [{'string': 'after'}]}}}}
+    if case['scope'] == 'global':
+        model = {'statements': [stmt, after]}
+    else:
+        model = {'statements': [{'function': {'name': 'hh', 'statements': [stmt, after]}}, {'expr': {'expr': {'function': {'name': 'hh', 'args': []}}}}]}
+    if fname in ('systemFetch', 'datetimeNow', 'datetimeToday', 'mathRandom'):
+        return
+    cls = purity_and_exactness(model, dict(case, function=fname), acc)
+    if cls is None:
+        return
+    justify(model, cls, dict(case, function=fname), acc, usesite_runner, 0)
+
+
+def fam_accessors(arg):
+    acc = Acc('accessors')
+    for i in arg:
+        for wrap in (False, True):
+            for scope in ('global', 'function'):
+                acc.cases += 1
+                check_accessor({'i': i, 'wrap': wrap, 'scope': scope}, acc)
+    acc.sample({'statement': 'f(systemLog("note")) for every library function f'})
+    return acc.result()
+
+
+def check_callee(case, acc):
+    """A local variable (or an argument) that holds a function and is used ONLY in callee position."""
+    kind = case['kind']
+    log = lambda x: {'expr': {'expr': {'function': {'name': 'systemLog', 'args': [x]}}}}  # noqa: E731
+    target = {'function': {'name': 'tt', 'args': ['v'], 'statements': [log({'binary': {'op': '+', 'left': {'string': 't'}, 'right': {'variable': 'v'}}}), {'return': {'expr': {'variable': 'v'}}}]}}
+    call_fv = {'function': {'name': 'fv', 'args': [{'number': 1}]}}
+    if kind == 'local-return':
+        body = [{'expr': {'name': 'fv', 'expr': {'variable': 'tt'}}}, {'return': {'expr': call_fv}}]
+        f = {'name': 'hh', 'statements': body}
+        args = []
+    elif kind == 'local-statement':
+        body = [{'expr': {'name': 'fv', 'expr': {'variable': 'tt'}}}, {'expr': {'expr': call_fv}}, {'return': {'expr': {'string': 'r'}}}]
+        f = {'name': 'hh', 'statements': body}
+        args = []
+    elif kind == 'local-nested-argument':
+        body = [{'expr': {'name': 'fv', 'expr': {'variable': 'tt'}}}, {'return': {'expr': {'function': {'name': 'arrayNew', 'args': [call_fv, call_fv]}}}}]
+        f = {'name': 'hh', 'statements': body}
+        args = []
+    else:
+        f = {'name': 'hh', 'args': ['fv'], 'statements': [{'jump': {'label': 'L', 'expr': call_fv}}, log({'string': 'not-taken'}), {'label': 'L'}, {'return': {'expr': {'string': 'r'}}}]}
+        args = [{'variable': 'tt'}]
+    model = {'statements': [target, {'function': f}, {'expr': {'name': 'rr', 'expr': {'function': {'name': 'hh', 'args': args}}}},
+                            log({'binary': {'op': '+', 'left': {'string': 'rr='}, 'right': {'variable': 'rr'}}})]}
+    cls = purity_and_exactness(model, case, acc)
+    if cls is None:
+        return
+    justify(model, cls, case, acc, usesite_runner, 0)
+
+
+CALLEE_KINDS = ('local-return', 'local-statement', 'local-nested-argument', 'argument-in-jump-condition')
+
+
+def fam_callee(arg):
+    acc = Acc('callee')
+    for k in arg:
+        acc.cases += 1
+        check_callee({'kind': k}, acc)
+    acc.sample({'kinds': list(CALLEE_KINDS)})
+    return acc.result()
+
+
 def use_trees(maxn):
     out = []
     for t in all_expr_trees(maxn):
@@ -634,7 +708,11 @@ def families(tier):
     maxn = 2 if tier == 'quick' else 3
     ntrees = len(all_expr_trees(maxn))
     nuse = len(use_trees(maxn))
+    from bare_script.library import SCRIPT_FUNCTIONS  # pylint: disable=import-outside-toplevel,import-error
+    nlib = len(SCRIPT_FUNCTIONS)
     return [
+        Family('accessors', fam_accessors, split(list(range(nlib)), 8), 'an expression statement f(effectful call) and f(arrayNew(effectful call)) for every library function f, at global scope and in a function: a "pointless" verdict is refuted by deleting the statement', expected=nlib * 4),
+        Family('callee', fam_callee, [list(CALLEE_KINDS)], 'a local variable / an argument that holds a function and is used only in callee position', expected=len(CALLEE_KINDS)),
         Family('usesites', fam_usesites, [(maxn, idxs) for idxs in split(list(range(nuse)), 32)],
                f'a function-local variable / an argument read exactly once, inside every expression tree with <= {maxn} internal nodes, in a return, an assignment, a jump condition and a call argument: an "unused" verdict is refuted by renaming the definition', expected=nuse * len(USE_KINDS) * 2),
         Family('exprstmts', fam_exprstmt, [(maxn, idxs) for idxs in split(list(range(ntrees)), 32)],
@@ -646,7 +724,7 @@ def families(tier):
     ]
 
 
-_CHECKS = {'usesites': check_usesite, 'jumpmodels': check_jump, 'structured': check_structured, 'shipped': check_shipped, 'exprstmts': check_exprstmt}
+_CHECKS = {'accessors': check_accessor, 'callee': check_callee, 'usesites': check_usesite, 'jumpmodels': check_jump, 'structured': check_structured, 'shipped': check_shipped, 'exprstmts': check_exprstmt}
 
 
 def replay(family, case):
